@@ -66,8 +66,9 @@ impl futures_io::AsyncWrite for Sink {
         let scripted = s.policy.is_none();
         let step = if !scripted {
             let mut p = s.policy.take().unwrap();
-            let st = p.next(buf.len());
+            let st = if budget_over() { Step::Fail } else { p.next(buf.len()) };
             s.policy = Some(p);
+            budget_note();
             st
         } else {
             match s.script.front().cloned() {
@@ -195,6 +196,15 @@ impl Policy for RandomPolicy {
     }
 }
 
+/// Event budget of one random run: an implementation that moves a large frame in very small pieces would otherwise produce
+/// runs no validation finishes in time. Past the budget the scripted environment ends the run with an outcome the
+/// specification has anyway (a failing sink / source), and the driver stops.
+pub const EVENT_BUDGET: usize = 6000;
+pub static NEV: core::sync::atomic::AtomicUsize = core::sync::atomic::AtomicUsize::new(0);
+pub fn budget_reset() { NEV.store(0, core::sync::atomic::Ordering::Relaxed) }
+pub fn budget_note() { NEV.fetch_add(1, core::sync::atomic::Ordering::Relaxed); }
+pub fn budget_over() -> bool { NEV.load(core::sync::atomic::Ordering::Relaxed) >= EVENT_BUDGET }
+
 /// The buffer a random run hands to `with_buffer` (None: `new`): what it holds and how much room it has is no part of any contract.
 pub fn start_buffer(seed: u64) -> Option<Vec<u8>> {
     match seed % 4 {
@@ -208,6 +218,7 @@ pub fn start_buffer(seed: u64) -> Option<Vec<u8>> {
 /// sync is driven to completion before the next write; both kinds of future may be dropped at Pending).
 pub fn run_random(seed: u64, nvals: usize, max_payload: usize) -> Vec<Value> {
     let mut rng = StdRng::seed_from_u64(seed);
+    budget_reset();
     let maxlen = if seed % 3 == 0 { (max_payload as u32 * 3) / 4 + 1 } else { max_payload as u32 };
     let vals: Vec<i64> = (0..nvals).map(|_| match rng.gen_range(0..12) { 0 => -1, 1 => 1, 2 => max_payload as i64, _ => rng.gen_range(1..=max_payload as i64) }).collect();
     let shared = Rc::new(RefCell::new(Shared { sink: vec![], script: VecDeque::new(),
@@ -222,7 +233,7 @@ pub fn run_random(seed: u64, nvals: usize, max_payload: usize) -> Vec<Value> {
     let mut next_v = 1usize;
     let mut must_sync = false;       // the writer may be armed with an unfinished frame
     let mut steps = 0;
-    while (next_v <= nvals || must_sync || fut.is_some()) && steps < 50 * nvals + 100 {
+    while (next_v <= nvals || must_sync || fut.is_some()) && steps < 50 * nvals + 100 && !budget_over() {
         steps += 1;
         let mut was_write = false;
         if fut.is_none() {
